@@ -1434,7 +1434,19 @@ def ob_pgm(d, n, form, priors, bad=False):
     def witness():
         st = [witness_matrix(d, d if form == "dm" else 1, j) for j in range(n)]
         st = [x if form != "vec" else x.reshape(-1) for x in st]
-        return [{"st": st, "p": None if priors != "sym" else [2 * (j + 1) / (n * (n + 1)) for j in range(n)]}]
+        out = [{"st": st, "p": None if priors != "sym" else [2 * (j + 1) / (n * (n + 1)) for j in range(n)]}]
+        if form != "dm" and n == d and d >= 2:
+            # an orthonormal basis that is not the computational one (columns of a fixed complex unitary): the average state has a
+            # REPEATED eigenvalue (uniform prior: I/d; prior (1/2, 1/4, 1/4, ..): degenerate 1/4) without being a diagonal array
+            rng = np.random.default_rng(90 + d)
+            Q = np.linalg.qr(rng.normal(size=(d, d)) + 1j * rng.normal(size=(d, d)))[0]
+            cols = [Q[:, j].reshape(-1) if form == "vec" else Q[:, [j]] for j in range(d)]
+            if priors == "sym":
+                pr = [0.5] + [0.5 / (d - 1)] * (d - 1)
+                out.append({"st": cols, "p": pr})
+            else:
+                out.append({"st": cols, "p": None})
+        return out
     name = ("pretty_bad_measurement.elements_are_(I-G_j)/(n-1)_as_psd_combination_and_sum_to_identity" if bad else
             "pretty_good_measurement.elements_p_j(R A_j)(R A_j)dag_and_sum_to_identity_under_RPR=I")
     return Obligation(name, cfg, build, call, marker_oracle, post=post, neg=marker_neg, exc_post=exc_post, assume=assume,
